@@ -517,6 +517,19 @@ def l4(rep, w):
     r.check(not extra, 'error_ip is given an address only by the raising functions, their recording helper and unwind_stack',
             'error_ip receives a code address in %s, which is not a raise: the site reported for the next uncaught error is one nothing relates to it' % sorted(extra))
     u = w.require_fn(UNW, 'C17')
+    # ... and unwind_stack is one of them: when it discards the frame the site was recorded in, it re-points the site to the call in
+    # the surviving frame through which the exception passed (that frame's saved ip)
+    uorg = origins(u)
+    repoints = False
+    for (bi, isnone, rr) in stores.get(UNW, ()):
+        if isnone:
+            continue
+        for a in rr.get('ops', [rr.get('o')] if rr.get('o') else []):
+            if a and {'ip'} <= operand_fields(u, uorg, a) and 'frames' in operand_fields(u, uorg, a):
+                repoints = True
+    r.check(repoints, 'unwind_stack re-points the site to the surviving frame\'s call when it discards frames',
+            'unwind_stack discards frames without moving the recorded site to the surviving frame: the site then lies in the code of a function that is gone, and runtime_error '
+            'looks it up in another function\'s line table (wrong line or out-of-bounds panic)', u.loc())
     cleared = False
     guarded = False
     for (bi, isnone, rr) in stores.get(UNW, ()):
